@@ -205,3 +205,24 @@ CHECKS["C06"]["note"] += " Thorough: Get SDR reservation/record IDs over all 65 
 CHECKS["C12"]["note"] += " Thorough: a fifth suite joins the universe (325 lists x 32 advertised subsets x 3 layouts)."
 CHECKS["C13"]["note"] += " Thorough: virtual deadlines every 250 ms up to 8 s."
 CHECKS["C14"]["note"] += " Thorough: three modifications during one call on 1-2 record repositories, two on 4-5 record ones."
+
+# ---- round 5 (texts only) -----------------------------------------------------
+CHECKS["C01"]["text"] += " Credentials are cut from one caller buffer with spare capacity (which must stay untouched); a sixth of the cases go on for 270 more commands."
+CHECKS["C02"]["text"] += " Variants: the first reply to every setup payload is lost before the mutation applies; suites with integrity None; a KG of twenty zero bytes against a BMC without KG."
+CHECKS["C03"]["text"] += " A session of 66 000 commands (initialisation vectors, counters past 2^16)."
+CHECKS["C04"]["text"] += " Forgeries also: an IPMI v1.5 wrapper around the message, several pad bytes wrong in ways that cancel; sessions whose BMC-side ID equals the console's."
+CHECKS["C05"]["text"] += " Complete handshakes with every value of the privilege byte of the Open Session Response."
+CHECKS["C07"]["text"] += " Rejection also for both checksums wrong in ways that cancel in a sum over the message."
+CHECKS["C08"]["text"] += " The same bytes are decoded twice by one long-lived layer value."
+CHECKS["C09"]["text"] += " BMC-chosen session IDs (top bit, zero byte) and BMC sequence numbering far ahead / wrapping; the suite integrity None + AES; sessions of 1 100 (thorough 66 000) commands."
+CHECKS["C10"]["text"] += " Persistence of Close under busy replies, and the persistence cases again over real sockets and timers; a valid reply filling the 512-byte receive buffer exactly."
+CHECKS["C11"]["text"] += " A copy of an old reply arriving 1..130 commands later on long-lived connections and sessions; a caller-defined PICMG (group extension, body 00h) command; the context ending during the back-off after a busy stray."
+CHECKS["C12"]["text"] += " Every value of the payload-length byte of each algorithm payload of the response (no panic; a session only for the proposed suite); establishment after 63..260 session-less commands on the connection."
+CHECKS["C13"]["text"] += " A handshake ending in 'incorrect password' as a call; a reply whose two checksums are wrong in ways that cancel."
+CHECKS["C14"]["text"] += " Repository clocks around 2^31 seconds; the BMC's sequence numbering wrapping mid-walk."
+CHECKS["C15"]["text"] += " Records of every event/reading type code."
+CHECKS["C16"]["text"] += " Enumeration when requests naming the standard entity IDs get no reply at all; discovery over real sockets with byte-identical neighbouring chunks."
+CHECKS["C17"]["text"] += " One connection used for session-less commands, discovery, two sessions and an SDR walk in every order up to depth 4 (5 thorough): each result as on a fresh connection, per-session sequence numbers 1,2,3.."
+CHECKS["C18"]["text"] += " A first preference refused with status 11h; a retry while the 32-bit sequence counter wraps."
+CHECKS["C19"]["text"] += " The goroutines' passwords are sub-slices of one shared credentials buffer."
+CHECKS["C20"]["text"] += " Durations up to ten years and the largest time.Duration values saturate at 63 days."
